@@ -60,21 +60,22 @@ CRITPATH_TIE = ("TRANSLATED tie: tools/extract_critpath.py turns, on every run, 
                 "passes is the stream's business (its decimal sub-stream). 26 semantic edits tried: 16 change results and fail kernel-checked "
                 "examples, 4 are result-preserving and fail only the lemmas, 2 tolerance variants differ off the grid only, 4 leave the fragment. ")
 
-PRINT_TIE = ("PARTIAL translated tie: tools/extract_print.py turns the sheet printer _Repr of task.py (cell texts, layout numbers, row sequence, "
-             "repr) into a PyLite program on every run; proved in general (Props/C20Src.lean): the link cells and the six computed fields are "
-             "the model's cell function, for every string library whose encoding round-trips; the __dict__ part of the cell function, the "
-             "column widths and the row sequence (depth-first, children on/off, level colours with the GREY fallback, print_color) are tied by "
-             "kernel-evaluated runs of the translated program on a concrete WBS (tests at the level of the kernel, imported by the Props "
-             "module: a source that no longer reproduces them breaks it); TextTable / colored_text are a primitive. 11 semantic edits tried, "
-             "all caught (9 failing runs, 2 leave the fragment). ")
+PRINT_TIE = ("TRANSLATED tie of the sheet printer: tools/extract_print.py turns _Repr of task.py (cell texts, layout numbers, row sequence, "
+             "repr) into a PyLite program on every run; C20_source_* (Props/C20Src.lean, Lemmas/PrintSrc*.lean) prove, for every string library "
+             "whose encoding round-trips: the cell text of EVERY field name (link cells with the (external) marker, computed fields, unknown and "
+             "differently-cased names, None, datetimes, str()) is the model's cell function; __print_task_subtree hands the table exactly the "
+             "model's rows in depth-first order with the colour rule (print_color, level colour, GREY) - for print_color values that are None "
+             "or a str; repr returns the model's sheet (header row + rows of every listed task). The two width functions are tied by "
+             "kernel-evaluated runs on a concrete WBS (tests at the level of the kernel); TextTable / colored_text are a primitive whose meaning "
+             "is the model's render. 11 semantic edits tried, all caught. ")
 
-CSV_TIE = ("PARTIAL translated tie: tools/extract_csv.py turns the cell parsers / formatters, read_csv, write_csv (io/csv_io.py) and "
-           "tasks_to_raws / raws_to_wbs (io/raw.py) into a PyLite program on every run; proved in general (Props/C13Src.lean): the numbering "
-           "of texts round-trips and __parse_str is the model's nonEmpty; the other cell functions, the write side (= the model's writeCsv of "
-           "the records, header order) and the read side (= the model's readCsv + rebuildForest; older files without min_start, BOM, "
-           "permuted columns, the error cases) are tied by kernel-evaluated runs on concrete files (tests at the level of the kernel). "
-           "The csv module, strftime / strptime, float(), int(), str() are library primitives with a stated meaning. 12 semantic edits "
-           "tried: 8 leave the fragment, 4 fail the runs. ")
+CSV_TIE = ("TRANSLATED tie of CSV I/O (write side complete, read side partial): tools/extract_csv.py turns the cell parsers / formatters, "
+           "read_csv, write_csv (io/csv_io.py) and tasks_to_raws / raws_to_wbs (io/raw.py) into a PyLite program on every run; C13_source_* "
+           "(Props/C13Src.lean, Lemmas/CsvSrc*.lean) prove, for every meaning of the built-ins (csv module = the model's Csv functions, "
+           "strftime / strptime, float(), int(), str()): every cell parser and __format_custom, __parse_header = the model's headerIndex, and "
+           "write_csv of a well-formed WBS description = the model's writeCsv of the records. read_csv is proved down to the record layer "
+           "(success direction); raws_to_wbs = rebuildForest and the error cases are tied by kernel-evaluated runs on concrete files (tests "
+           "at the level of the kernel). 12 semantic edits tried: 8 leave the fragment, 4 fail the runs. ")
 
 LOOPS_TIE = ("TRANSLATED tie of the inner loops: tools/extract_schedule.py turns, on every run, _ResourceUsage.reserved/reserve/__get_key and both "
              "schedulers' __get_resource_nearest_available_date / __shift_by_resource_usage_and_calendar into PyLite terms; the *_source_* theorems "
